@@ -479,11 +479,15 @@ func c03ApplyFault(c *C03Case, root string, inv *procsim.Invocation) error {
 		inv.Injects = append(inv.Injects, procsim.Inject{Syscall: "openat", Path: c.FaultPath, Errno: "EACCES"})
 	case "read-EIO":
 		inv.Injects = append(inv.Injects, procsim.Inject{Syscall: "read", Path: c.FaultPath, Errno: "EIO", When: "1"})
+	case "read-EIO-after-first-chunk":
+		inv.Injects = append(inv.Injects, procsim.Inject{Syscall: "read", Path: c.FaultPath, Errno: "EIO", When: "2"})
+	case "openat-EMFILE":
+		inv.Injects = append(inv.Injects, procsim.Inject{Syscall: "openat", Path: c.FaultPath, Errno: "EMFILE"})
 	}
 	return nil
 }
 
-var c03Faults = []string{"delete", "dangling", "directory", "truncate-to-garbage", "openat-EIO", "openat-EACCES", "read-EIO"}
+var c03Faults = []string{"delete", "dangling", "directory", "truncate-to-garbage", "openat-EIO", "openat-EACCES", "read-EIO", "read-EIO-after-first-chunk", "openat-EMFILE"}
 
 // judgeC03 runs the case (with its fault / variant, if any).
 func judgeC03(e *Env, pool *libsim.Pool, c *C03Case, tag string, run int64) (*c03Obs, error) {
@@ -540,6 +544,7 @@ func judgeC03(e *Env, pool *libsim.Pool, c *C03Case, tag string, run int64) (*c0
 	}
 	if c.Fault != "" {
 		if strings.Contains(c.Fault, "-E") && out.Injected == 0 {
+			// (strace reports every injected call)
 			return obs, nil // the fault did not fire (layer not reached through that syscall)
 		}
 		obs.Fired = true
